@@ -10,6 +10,9 @@ from harness import common as C
 RULE = ('constructor cases: Uniform/LogUniform(bounds | lin_bounds)/Gaussian/LogGaussian(mean | lin_mean, std | lin_std)/'
         'default(mode, bounds) with bounds in either order, magnitudes 1e-150..1e150, negative/zero/huge/tiny, equal '
         'exponents, u grid containing 0, 1, 0.5, 0.1, 0.9, 1e-12, 1-1e-12 and random points; text cases: calls drawn from '
+        'declared cases: 1-4 parameters of a real Fittable / ForwardModel declared through @fitparam(...) (keyword-only form), '
+        'fitparam(f, ...) (direct form, optional keywords left out) or add_fittable_param, 0-3 modify_bounds calls in / after '
+        'the constructor / after the optimizer exists, default prior through Optimizer.compile_params or the module function; '
         'the documented grammar (three name casings, keyword subsets in random order, tuple/list, int/float/exponent/'
         'signed literals, random blanks) plus the model\'s canonical print. distinct non-trivial = distinct '
         '(constructor, bound order, magnitude class) resp. (class, keyword set, container, casing)')
@@ -582,6 +585,295 @@ def eval_text(ctx, case):
                       dict(text=impl, direct=direct))
 
 
+# ----------------------------------------------------------------------------- declared parameters -> default priors
+ROUTES = ['deco-kw', 'deco-call', 'dynamic']
+
+
+def _declared_host(case):
+    """a real Fittable (plain component or ForwardModel) whose parameters are declared as the case says: the decorator
+    in its keyword-only form `@fitparam(param_name=…, …)` and in its direct form `fitparam(f, param_name=…, …)` (keywords
+    the case leaves out are left out), `add_fittable_param` in the constructor, and `modify_bounds` calls made in the
+    constructor ('init', as LightCurveModel does), after it ('later') or after the optimizer exists ('late')."""
+    from taurex.core import fitparam
+    from taurex.data.fittable import Fittable
+    from taurex.model import ForwardModel
+    params = case['params']
+    hist = case['hist']
+    ns = {}
+    for p in params:
+        if p['route'] == 'dynamic':
+            continue
+        attr = '_v_' + p['name']
+
+        def getter(self, _a=attr):
+            return getattr(self, _a)
+
+        def setter(self, v, _a=attr):
+            setattr(self, _a, v)
+        kw = dict(param_name=p['name'], param_latex='$%s$' % p['name'])
+        if p.get('mode') is not None:
+            kw['default_mode'] = p['mode']
+        if p.get('fit') is not None:
+            kw['default_fit'] = bool(p['fit'])
+        if p.get('bounds') is not None:
+            kw['default_bounds'] = list(p['bounds'])
+        prop = fitparam(**kw)(getter) if p['route'] == 'deco-kw' else fitparam(getter, **kw)
+        ns['p_' + p['name']] = prop.setter(setter)
+
+    def body(self):
+        for p in params:
+            if p['route'] != 'dynamic':
+                continue
+            attr = '_v_' + p['name']
+
+            def fget(s, _a=attr):
+                return getattr(s, _a)
+
+            def fset(s, v, _a=attr):
+                setattr(s, _a, v)
+            self.add_fittable_param(p['name'], '$%s$' % p['name'], fget, fset, p['mode'], bool(p['fit']), list(p['bounds']))
+        for n, b, when in hist:
+            if when == 'init':
+                self.modify_bounds(n, list(b))
+
+    def init_values(self):
+        for p in params:
+            setattr(self, '_v_' + p['name'], 1.5)
+    if case['host'] == 'model':
+        def __init__(self):
+            init_values(self)
+            ForwardModel.__init__(self, 'DeclModel')
+            body(self)
+        ns.update(__init__=__init__, build=lambda self: None,
+                  model=lambda self, wngrid=None, cutoff_grid=True: (np.linspace(1, 2, 3), np.zeros(3), None, None))
+        return type('DeclModel', (ForwardModel,), ns)
+    else:
+        def __init__(self):
+            init_values(self)
+            Fittable.__init__(self)
+            body(self)
+        ns.update(__init__=__init__)
+        return type('DeclComponent', (Fittable,), ns)
+
+
+def _decl_obs():
+    from taurex.spectrum import BaseSpectrum
+
+    class DeclObs(BaseSpectrum):
+        def __init__(self):
+            super().__init__('DeclObs')
+
+        def create_binner(self):
+            from taurex.binning import NativeBinner
+            return NativeBinner()
+        spectrum = property(lambda self: np.zeros(3))
+        wavenumberGrid = property(lambda self: np.linspace(1, 2, 3))
+        errorBar = property(lambda self: np.ones(3))
+    return DeclObs()
+
+
+def decl_token(p):
+    m = p.get('mode')
+    t = [C.S(p['name']), '0' if m is None else '1 ' + C.N(0 if m == 'linear' else 1),
+         '0' if p.get('fit') is None else '1 ' + C.N(1 if p['fit'] else 0),
+         '0' if p.get('bounds') is None else '1 %s %s' % (C.F(p['bounds'][0]), C.F(p['bounds'][1]))]
+    return ' '.join(t)
+
+
+def gen_declared(rng, k):
+    npar = int(rng.integers(1, 5))
+    host = 'model' if k % 3 else 'component'
+    params = []
+    for i in range(npar):
+        route = ROUTES[(k + i) % 3]
+        mode = 'log' if rng.random() < 0.55 else 'linear'
+        b = gen_bounds(rng, positive=(mode == 'log'))
+        if max(abs(b[0]), abs(b[1])) > 1e100 or min(abs(b[0]), abs(b[1])) < 1e-100:
+            b = [float(10 ** rng.uniform(-8, 2)), float(10 ** rng.uniform(2.5, 9))]
+            if rng.random() < 0.5:
+                b = b[::-1]
+        p = dict(name='q%d' % i, route=route, mode=mode, fit=bool(rng.random() < 0.4), bounds=b)
+        if route != 'dynamic':
+            # keywords the decorator call leaves out: the signature defaults ('linear', False, [0.0, 1.0]) apply
+            if mode == 'linear' and rng.random() < 0.3:
+                p['mode'] = None
+            if rng.random() < 0.3:
+                p['fit'] = None
+            if (p['mode'] or 'linear') == 'linear' and rng.random() < 0.2:
+                p['bounds'] = None
+        params.append(p)
+    hist = []
+    for _ in range(int(rng.choice([0, 1, 1, 2, 3]))):
+        p = params[int(rng.integers(0, npar))]
+        mode = p['mode'] or 'linear'
+        b = gen_bounds(rng, positive=(mode == 'log'))
+        if max(abs(b[0]), abs(b[1])) > 1e100 or min(abs(b[0]), abs(b[1])) < 1e-100:
+            b = [float(10 ** rng.uniform(2, 5)), float(10 ** rng.uniform(-3, 1))]
+        when = ['init', 'later', 'late'][int(rng.integers(0, 3 if host == 'model' else 2))]
+        hist.append([p['name'], b, when])
+    r = rng.random()
+    if r < 0.04 and hist:
+        hist[-1][0] = 'no_such_param'                 # KeyError
+        hist[-1][2] = 'later'
+    elif r < 0.08 and npar >= 2 and params[-1]['route'] == 'dynamic':
+        params[-1]['name'] = params[0]['name']        # declared twice: AttributeError
+    elif r < 0.14:
+        # a log parameter whose current bounds are not positive: no default prior exists (ValueError at compile)
+        logs = [p for p in params if p['mode'] == 'log']
+        if logs:
+            p = logs[0]
+            b = [-abs(p['bounds'][0]) if rng.random() < 0.6 else 0.0, p['bounds'][1]]
+            if rng.random() < 0.5:
+                p['bounds'] = b
+            else:
+                hist.append([p['name'], b, 'later'])
+    # the order of the calls as executed: 'init' ones first, then 'later', then 'late'
+    hist.sort(key=lambda h: ['init', 'later', 'late'].index(h[2]))
+    return dict(type='declared', host=host, params=params, hist=hist)
+
+
+def eval_declared(ctx, case):
+    from taurex.core.priors import Uniform, LogUniform
+    from taurex.optimizer.optimizer import Optimizer, compile_params
+    # order of execution: compile_fitparams registers the decorated properties (class order) inside Fittable.__init__, the
+    # constructor body adds the dynamic ones afterwards
+    params = [p for p in case['params'] if p['route'] != 'dynamic'] + [p for p in case['params'] if p['route'] == 'dynamic']
+    hist = [tuple(h) for h in case['hist']]
+    us = [float(u) for u in case['us']]
+    xs = [float(x) for x in case['xs']]
+    zs = [ndtri(u) for u in us]
+    z10, z90 = z1090()
+    small = dict(case)
+    # ---- the model
+    d = ctx.model().call('c08.declared', C.L(params, decl_token),
+                         C.L(hist, lambda h: ' '.join([C.S(h[0]), C.F(h[1][0]), C.F(h[1][1])])),
+                         C.F(z10), C.F(z90), C.L(us), C.L(zs), C.L(xs))
+    m_ok = d.nat()
+    m_rows = []
+    if m_ok:
+        def row():
+            name, mode, fit, b0, b1 = d.str(), d.nat(), d.bool(), d.flt(), d.flt()
+            ev = read_eval(d) if d.nat() else None
+            return dict(name=name, mode=mode, fit=fit, b0=b0, b1=b1, ev=ev)
+        m_rows = d.list(row)
+    # ---- the real objects
+    outcome = 'ok'
+    host = opt = None
+    try:
+        host = _declared_host(case)()
+        for n, b, when in hist:
+            if when == 'later':
+                host.modify_bounds(n, list(b))
+        if case['host'] == 'model':
+            opt = Optimizer('verif', observed=_decl_obs(), model=host)
+        for n, b, when in hist:
+            if when == 'late':
+                host.modify_bounds(n, list(b))
+    except (KeyError, AttributeError) as e:
+        outcome = type(e).__name__
+    except Exception as e:      # the real code refuses a declaration of the documented form
+        ctx.violation('declared-raises:' + case['host'], 'declaring fitting parameters / modify_bounds raised %r' % (e,),
+                      small)
+        return
+    names = [p['name'] for p in params]
+    ctx.bucket('declared:outcome:' + outcome)
+    ctx.check_eq('declarations + modify_bounds: outcome (ok / KeyError / AttributeError) vs FittableTable.declaredTable',
+                 outcome == 'ok', bool(m_ok), small)
+    if outcome != 'ok':
+        expect = 'KeyError' if len(set(names)) == len(names) else 'AttributeError'
+        if not (any(h[0] not in names for h in hist) or len(set(names)) != len(names)):
+            ctx.violation('declared-raises:' + outcome, 'a declaration or modify_bounds on a declared name raised', small)
+        elif outcome != expect:
+            ctx.violation('declared-error-kind', 'wrong exception for an undeclared name / a name declared twice', small,
+                          dict(got=outcome, want=expect))
+        ctx.case(key=None, bucket='declared:error', sample=small)
+        return
+    # the table the optimizer reads: the ForwardModel's live view for a model, the Fittable's own for a component
+    table = host.fittingParameters if case['host'] == 'model' else host.fitting_parameters()
+    if list(table) != names:
+        ctx.violation('declared-table:names', 'the table the optimizer reads does not hold exactly the declared parameters '
+                      '(decorated ones in class order, then those added in the constructor)', small,
+                      dict(table=list(table), declared=names))
+        return
+    declared_tuples = {n: tuple(table[n]) for n in names}    # as declared, before any optimizer operation re-packs them
+    for p, mrow in zip(params, m_rows if m_ok else [None] * len(params)):
+        n = p['name']
+        t = declared_tuples[n]
+        mode_decl = p.get('mode') or 'linear'
+        fit_decl = bool(p.get('fit')) if p.get('fit') is not None else False
+        cur = [list(h[1]) for h in hist if h[0] == n]
+        b = cur[-1] if cur else (list(p['bounds']) if p.get('bounds') is not None else [0.0, 1.0])
+        modified = bool(cur)
+        tag = '%s:%s%s' % (p['route'], mode_decl, ':modified' if modified else '')
+        ctx.bucket('declared:' + tag)
+        if p.get('mode') is None or p.get('fit') is None or p.get('bounds') is None:
+            ctx.bucket('declared:keyword-left-out')
+        ctx.case(key=('declared', case['host'], p['route'], p.get('mode'), p.get('fit') is None, p.get('bounds') is None,
+                      min(len(cur), 2), b[0] > b[1]), bucket='declared:host:' + case['host'],
+                 sample=dict(host=case['host'], param=p, current_bounds=b))
+        # ---- the tuple: declaration -> (name, …, mode, fit, bounds), then the last modify_bounds
+        slot = (t[0], t[4], t[5], [float(t[6][0]), float(t[6][1])]) if len(t) == 7 and len(t[6]) == 2 else tuple(t)
+        want = (n, mode_decl, fit_decl, [float(b[0]), float(b[1])])
+        if mrow is not None:
+            ctx.check_eq('declared tuple (name, mode, fit, bounds) vs FittableTable.declaredTable', slot,
+                         (mrow['name'], 'log' if mrow['mode'] else 'linear', mrow['fit'], [mrow['b0'], mrow['b1']]),
+                         dict(small, param=n))
+        if slot != want:
+            ctx.violation('declared-tuple:' + tag, 'the parameter tuple does not carry the declared mode / fit flag and the '
+                          'current bounds in their slots', small, dict(param=n, got=repr(slot), want=repr(want)))
+        # ---- its default prior
+        try:
+            if opt is not None:
+                for other in names:
+                    opt.disable_fit(other)
+                opt.enable_fit(n)
+                opt.compile_params()
+                pri = list(opt.fitting_priors)
+            else:
+                tt = table[n]
+                _, pri, _, _ = compile_params({n: (tt[0], tt[1], tt[2], tt[3], tt[4], True, tt[6])}, {}, {})
+            prior, err = (pri[0] if len(pri) == 1 else None), None
+        except ValueError as e:
+            prior, err = None, repr(e)
+        except Exception as e:
+            ctx.violation('default-declared:' + tag, 'compile_params raised %r on the table of a declared parameter' % (e,),
+                          small, dict(param=n))
+            continue
+        no_default = mode_decl == 'log' and not (b[0] > 0 and b[1] > 0)
+        ctx.check_eq('default prior of a declared parameter exists vs FittableTable.defaultOf', prior is not None,
+                     mrow is not None and mrow['ev'] is not None, dict(small, param=n))
+        if no_default:
+            ctx.bucket('declared:no-default(log, non-positive bound)')
+            if prior is not None:
+                ctx.violation('default-declared:' + tag, 'a default prior was built for a log parameter with a non-positive '
+                              'bound', small, dict(param=n, got=type(prior).__name__ + ' ' + prior.params()))
+            continue
+        if prior is None:
+            ctx.violation('default-declared:' + tag, 'compile_params built no default prior (%s) for a declared parameter '
+                          'with valid bounds' % err, small, dict(param=n))
+            continue
+        impl = observe(prior, us, xs)
+        if mrow is not None and mrow['ev'] is not None:
+            compare_eval(ctx, 'default prior of a declared parameter', impl, mrow['ev'], dict(small, param=n))
+        bb = [math.log10(v) for v in b] if mode_decl == 'log' else [float(v) for v in b]
+        cls = LogUniform if mode_decl == 'log' else Uniform
+        lo, hi = min(bb), max(bb)
+        good = type(prior) is cls and impl['mode'] == (1 if mode_decl == 'log' else 0) and \
+            C.close([impl['lo'], impl['hi']], [lo, hi], rel=1e-13, abs_=1e-300)
+        if good:
+            w = max(abs(lo), abs(hi))
+            for u, sv in zip(us, impl['samples']):
+                if not abs(sv - (lo + (hi - lo) * u)) <= 4 * np.spacing(w) + 1e-12 * abs(lo + (hi - lo) * u):
+                    good = False
+            for x, y in zip(xs, impl['backs']):
+                if not C.close(y, 10 ** x if mode_decl == 'log' else x, rel=1e-12):
+                    good = False
+        if not good:
+            ctx.violation('default-declared:' + tag, 'the default prior of a declared parameter does not derive from its '
+                          'declared mode and its current bounds', small,
+                          dict(param=n, mode=mode_decl, bounds=b, got=type(prior).__name__ + ' ' + prior.params()))
+
+
 # ----------------------------------------------------------------------------- externals
 def validate_externals(ctx):
     import scipy.stats as st
@@ -769,6 +1061,11 @@ def run(ctx):
         text = d.str()
         eval_text(ctx, dict(text=text, us=gen_us(rng, 1), xs=[1.0], expect_ok=True, call=call))
         ctx.bucket('text:printed-by-model')
+    # declared parameters: decorator (keyword-only and direct form) / add_fittable_param, modify_bounds histories, default
+    # priors through the real Optimizer (ForwardModel host) or the module-level compile_params (plain Fittable host)
+    for k in range(ctx.n(360, 5000)):
+        case = gen_declared(rng, k)
+        eval_declared(ctx, dict(case, us=gen_us(rng, 2), xs=[float(x) for x in rng.uniform(-20, 20, size=2)]))
     malformed(ctx)
     late_plugin_priors(ctx)
 
@@ -785,7 +1082,9 @@ def replay(ctx, case):
         except Exception:
             pass
         return
-    if case.get('type') == 'text':
+    if case.get('type') == 'declared':
+        eval_declared(ctx, case)
+    elif case.get('type') == 'text':
         eval_text(ctx, case)
     else:
         eval_ctor(ctx, case)
